@@ -93,7 +93,8 @@ class Fields(object):
             return (text_of(self.rng, 200, False) * 10)[:n].rstrip() or "r"
         if self.rng.random() < 0.06:
             # a carriage return in the middle of the free text is a byte of that text (a line ends at LF, or CR LF)
-            return self.rng.choice(["Real\rName", "a\rb c", "x \r y"])
+            # (also when what follows it would be a line of its own: nobody announced client 4242)
+            return self.rng.choice(["Real\rName", "a\rb c", "x \r y", "R\r4242 C 9.9.9.9 999 10.0.0.1 6667\r4242 H"])
         return text_of(self.rng, 40)
 
     def password(self, wellformed=True):
